@@ -8,6 +8,8 @@ require (
 	github.com/theparanoids/crypki v1.20.7
 	github.com/theparanoids/ysshra v0.0.0
 	golang.org/x/crypto v0.35.0
+	google.golang.org/grpc v1.70.0
+	google.golang.org/protobuf v1.36.5
 )
 
 require (
@@ -35,8 +37,6 @@ require (
 	golang.org/x/text v0.22.0 // indirect
 	google.golang.org/genproto/googleapis/api v0.0.0-20250204164813-702378808489 // indirect
 	google.golang.org/genproto/googleapis/rpc v0.0.0-20250204164813-702378808489 // indirect
-	google.golang.org/grpc v1.70.0 // indirect
-	google.golang.org/protobuf v1.36.5 // indirect
 )
 
 replace github.com/theparanoids/ysshra => /repo
